@@ -50,7 +50,25 @@ def _configs(tier):
             for pdn in PAT_GROUPINGS:
                 if (n_rdm, n_cond) in [(3, 4), (4, 5), (2, 3), (2, 5)]:
                     out.append(('bootstrap_sample_pattern', n_rdm, n_cond, None, pdn, cont))
+    # objects that are themselves derived: a subset (non-contiguous 'index') and a resample (repeated 'index')
+    for src in ('subset', 'resampled'):
+        for cont in ['list', 'ndarray']:
+            for pdn in ('index', None, 'cid', 'cat'):
+                out.append(('bootstrap_sample_pattern', 2, 4, None, pdn, cont, src))
+                if pdn in ('index', 'cid'):
+                    out.append(('bootstrap_sample', 2, 4, 'index', pdn, cont, src))
     return out
+
+
+def _ids(cfg):
+    """(rids, cids) of the object handed to the routine, per source variant"""
+    n_rdm, n_cond = cfg[1], cfg[2]
+    src = cfg[6] if len(cfg) > 6 else 'fresh'
+    if src == 'subset':            # a subset of a larger object: 'index' keeps the original positions
+        return list(range(n_rdm)), [c for c in range(n_cond + 2) if c not in (0, 2)]
+    if src == 'resampled':         # an object that already holds a bootstrap copy: repeated 'index' values
+        return list(range(n_rdm)), [0, 0] + list(range(2, n_cond))
+    return list(range(n_rdm)), list(range(n_cond))
 
 
 def _n_groups(desc_fn, ids):
@@ -58,16 +76,17 @@ def _n_groups(desc_fn, ids):
 
 
 def _group_counts(cfg):
-    routine, n_rdm, n_cond, rd, pdn, cont = cfg
-    ng_r = n_rdm if rd in (None, 'index') else _n_groups(selfdesc.RDM_DESC[rd], range(n_rdm))
-    ng_p = n_cond if pdn in (None, 'index') else _n_groups(selfdesc.PAT_DESC[pdn], range(n_cond))
+    routine, n_rdm, n_cond, rd, pdn, cont = cfg[:6]
+    rids, cids = _ids(cfg)
+    ng_r = len(set(rids)) if rd in (None, 'index') else _n_groups(selfdesc.RDM_DESC[rd], rids)
+    ng_p = len(set(cids)) if pdn in (None, 'index') else _n_groups(selfdesc.PAT_DESC[pdn], cids)
     return ng_r, ng_p
 
 
 def shards(tier, seed):
     out = []
     for cfg in _configs(tier):
-        routine, n_rdm, n_cond, rd, pdn, cont = cfg
+        routine, n_rdm, n_cond, rd, pdn, cont = cfg[:6]
         ng_r, ng_p = _group_counts(cfg)
         if routine == 'bootstrap_sample':
             total = ng_r ** ng_r * ng_p ** ng_p
@@ -91,9 +110,20 @@ def shards(tier, seed):
 def _execute(cfg, env):
     """one execution of the real routine under the environment `env`; returns observation dict"""
     from rsatoolbox.inference import bootstrap as B
-    routine, n_rdm, n_cond, rd, pdn, cont = cfg
-    rdms = selfdesc.build(list(range(n_rdm)), list(range(n_cond)), container=cont, rdm_desc=RD)
-    model = selfdesc.build([9], list(range(n_cond)), container=cont)
+    routine, n_rdm, n_cond, rd, pdn, cont = cfg[:6]
+    src = cfg[6] if len(cfg) > 6 else 'fresh'
+    rids, cids = _ids(cfg)
+    if src == 'fresh':
+        rdms = selfdesc.build(rids, cids, container=cont, rdm_desc=RD)
+        model = selfdesc.build([9], cids, container=cont)
+    elif src == 'subset':
+        full = list(range(n_cond + 2))
+        rdms = selfdesc.build(rids, full, container=cont, rdm_desc=RD).subset_pattern('cid', cids)
+        model = selfdesc.build([9], full, container=cont).subset_pattern('cid', cids)
+    else:
+        full = sorted(set(cids) | {1})
+        rdms = selfdesc.build(rids, full, container=cont, rdm_desc=RD).subsample_pattern('cid', cids)
+        model = selfdesc.build([9], full, container=cont).subsample_pattern('cid', cids)
     before = (rdms.dissimilarities.copy(), repr(rdms.rdm_descriptors), repr(rdms.pattern_descriptors))
     rng = rngenv.RngEnv(env)
     with rngenv.installed(rng):
@@ -112,8 +142,9 @@ def _execute(cfg, env):
 
 
 def _judge(cfg, obs, ctx, case):
-    routine, n_rdm, n_cond, rd, pdn, cont = cfg
-    sigp = '%s|rdm=%s,pattern=%s' % (routine, 'grouped' if rd not in (None, 'index') else rd,
+    routine, n_rdm, n_cond, rd, pdn, cont = cfg[:6]
+    src = cfg[6] if len(cfg) > 6 else 'fresh'
+    sigp = '%s|%srdm=%s,pattern=%s' % (routine, '' if src == 'fresh' else 'source=%s,' % src, 'grouped' if rd not in (None, 'index') else rd,
                                      'grouped' if pdn not in (None, 'index') else pdn)
     sample = obs['sample']
     ng_r, ng_p = _group_counts(cfg)
@@ -128,8 +159,7 @@ def _judge(cfg, obs, ctx, case):
         ctx.fail(sigp + '|draw-request', case, 'randint requests %r, expected %r' % (obs['calls'], want_calls))
         return
     # 2. content from the RETURNED index arrays: exactly the RDMs / conditions of the drawn groups
-    src_rids = list(range(n_rdm))
-    src_cids = list(range(n_cond))
+    src_rids, src_cids = _ids(cfg)
     if obs['rdm_idx'] is not None:
         f = (lambda r: r) if rd in (None, 'index') else selfdesc.RDM_DESC[rd]
         idx = list(obs['rdm_idx'])
@@ -252,8 +282,12 @@ def finalize(counters, tier, complete):
         groups.setdefault((cfgkey, what), {})[int(val)] = v
     for (cfgkey, what), cnt in sorted(groups.items()):
         parts = cfgkey.split('|')
-        n = int(parts[1]) if what == 'rdm' else int(parts[2])
-        if set(cnt) != set(range(n)) or len(set(cnt.values())) != 1:
+        cfg = (parts[0], int(parts[1]), int(parts[2]), parts[3], parts[4], parts[5]) + tuple(parts[6:7])
+        rids, cids = _ids(cfg)
+        ids = rids if what == 'rdm' else cids
+        mult = Counter(ids)           # an item held twice by the source is drawn with its group: twice as often
+        ratios = {c: cnt.get(c, 0) / mult[c] for c in mult}
+        if set(cnt) != set(mult) or len(set(ratios.values())) != 1:
             fails.append(('%s|uniformity-%s' % (parts[0], what),
                           {'cfg': cfgkey, 'what': what, 'counts': cnt},
                           'occurrence counts over the complete enumeration are not equal: %r' % (cnt,)))
